@@ -17,7 +17,7 @@ import (
 )
 
 var (
-	bindErrRe    = regexp.MustCompile(`unknown identifier|does not bind|no such function|not accessed on this path|not reached from the operator`)
+	bindErrRe    = regexp.MustCompile(`unknown identifier|sort mismatch|does not bind|no such function|not accessed on this path|not reached from the operator`)
 	unknownIDRe  = regexp.MustCompile(`unknown identifier ([A-Za-z_][A-Za-z0-9_]*)`)
 	noNamedRe    = regexp.MustCompile(`no (?:parameter or captured variable|field or cell|function parameter) named ([A-Za-z_0-9, ]+)`)
 	identTokenRe = regexp.MustCompile(`[A-Za-z_][A-Za-z0-9_]*`)
